@@ -741,6 +741,12 @@ func runProperty(prop, tier string) int {
 			}
 			for _, name := range stByRel[rel] {
 				a, b := engOut[name], nat[name]
+				// a Go panic in the code under test ends both runs: the wording of the last line differs, the outputs before it must agree
+				if len(a) > 0 && len(b) > 0 && strings.HasPrefix(a[len(a)-1], "<status=violation-end panic:") && strings.HasPrefix(b[len(b)-1], "<status=panic") {
+					a = append(append([]string{}, a[:len(a)-1]...), "<panic>")
+					b = append(append([]string{}, b[:len(b)-1]...), "<panic>")
+					fmt.Printf("  note: selftest %s panics in the code under test (engine and native agree up to the panic)\n", name)
+				}
 				if strings.Join(a, "\x00") == strings.Join(b, "\x00") && len(a) > 0 {
 					validated += len(a)
 				} else if len(a) > 0 && strings.HasPrefix(a[len(a)-1], "<status=unsupported") {
